@@ -529,6 +529,21 @@ func (g *Gen) verifyFunc(ct *Contract) (fg *FnGen, err error) {
 			Goal: False, ExpectSat: true, Props: ct.Props, ct: ct, fg: fg}
 		fg.obls = append(fg.obls, o)
 	}
+	// ... and so must the facts together with each return site's path condition: a fact that contradicts a path (an
+	// abstraction gone wrong, a callee contract that excludes the path) would discharge every obligation on that path
+	// vacuously. Only a proof of unreachability fails the guard; return sites that ARE unreachable on the unchanged tree
+	// are listed per function in /verif/expect/unreachable.json.
+	if len(fg.obls) > 0 && os.Getenv("GOVC_NOCOVER") == "" {
+		for i, rs := range fr.rets {
+			if rs.reach == True {
+				continue
+			}
+			o := &Obligation{Name: fmt.Sprintf("%s#vacuity:path@r%d", fg.name, i), Fn: fg.name, Kind: "vacuity",
+				Assumes: append(append([]*Term{}, fg.assumes...), rs.reach), Goal: False, ExpectSat: true, Props: ct.Props, ct: ct, fg: fg,
+				Pos: g.prog.Fset.Position(rs.instr.Pos()).String()}
+			fg.obls = append(fg.obls, o)
+		}
+	}
 	return fg, nil
 }
 
@@ -1047,7 +1062,7 @@ func cmdCheck(args []string) int {
 	pkgSet := map[string]bool{}
 	for _, c := range g.all {
 		if (c.Kind == "func" || c.Kind == "lemma") && hasProp(c, prop) && !c.Trusted {
-			if *only != "" && !strings.Contains(c.Key, *only) {
+			if *only != "" && !strings.Contains(c.Pkg+"."+c.Key, *only) {
 				continue
 			}
 			sel = append(sel, c)
@@ -1177,6 +1192,29 @@ func cmdCheck(args []string) int {
 		}
 	}
 	// report
+	// return sites that are unreachable on the unchanged tree (dead defensive code): /verif/expect/unreachable.json lists,
+	// per function, how many the path guard may refute; one more than listed is a vacuous path and fails the guard
+	allowedUnreach := map[string]int{}
+	if b, err := os.ReadFile(filepath.Join(*verif, "expect", "unreachable.json")); err == nil {
+		json.Unmarshal(b, &allowedUnreach)
+	}
+	unreach := map[string][]int{}
+	for i, r := range results {
+		if r.Status == "failed" && r.Raw == "unsat" && strings.Contains(r.Name, "#vacuity:path@") && r.obl != nil {
+			unreach[r.obl.Fn] = append(unreach[r.obl.Fn], i)
+		}
+	}
+	var unreachNotes []string
+	for fn, idx := range unreach {
+		if len(idx) <= allowedUnreach[fn] {
+			for _, i := range idx {
+				results[i].Status = "discharged"
+				results[i].Note = "return site unreachable on the unchanged tree as well (expect/unreachable.json)"
+				unreachNotes = append(unreachNotes, "return site proved unreachable and expected so (dead defensive code): "+results[i].Name+" at "+results[i].Pos)
+			}
+		}
+	}
+	sort.Strings(unreachNotes)
 	discharged := 0
 	solverWins := map[string]int{}
 	solverTime := 0.0
@@ -1232,6 +1270,7 @@ func cmdCheck(args []string) int {
 		assumptions = append(assumptions, "abstraction: "+n)
 	}
 	assumptions = append(assumptions, g.mirrorDiffs...)
+	assumptions = append(assumptions, unreachNotes...)
 	sort.Strings(assumptions[1:])
 	inl := []string{}
 	for f := range g.inlined {
